@@ -225,7 +225,7 @@ func (ex *Explorer) enqueue(prefix []int) {
 
 func (ex *Explorer) runPath(prefix []int, ss *solverSet) (res *PathResult) {
 	p := &Path{ex: ex, prefix: prefix, declSet: map[string]bool{}, inputSort: map[string]Sort{},
-		counters: map[string]int{}, varIv: map[string]ival{}, bounds: map[string]int64{}, memo: map[string]interface{}{}, facts: map[string]bool{}}
+		counters: map[string]int{}, varIv: map[string]ival{}, bounds: map[string]int64{}, memo: map[string]interface{}{}, facts: map[string]bool{}, alpha: map[string]*[256]bool{}}
 	i := &interpreter{prog: ex.Prog, ex: ex, path: p, ss: ss,
 		globals: map[*ssa.Global]*value{}, pkgInit: map[*ssa.Package]int{},
 		sizes: &types.StdSizes{WordSize: 8, MaxAlign: 8}, trace: ex.Trace,
@@ -282,7 +282,17 @@ func (ex *Explorer) runPath(prefix []int, ss *solverSet) (res *PathResult) {
 // ---------------------------------------------------------------- branching
 
 func (i *interpreter) solve(extra []string, vals []string) queryResult {
-	q := i.path.queryText(extra...)
+	return i.solveMode(true, extra, vals)
+}
+
+// solveFeas: feasibility query without the heavy (lazy) constraints; an
+// over-approximation of the path condition, so "unsat" is still conclusive.
+func (i *interpreter) solveFeas(extra []string) queryResult {
+	return i.solveMode(false, extra, nil)
+}
+
+func (i *interpreter) solveMode(full bool, extra []string, vals []string) queryResult {
+	q := i.path.queryText(full, extra...)
 	hasStr := i.path.usesStr || strings.Contains(q, "String") || strings.Contains(q, "str.")
 	return i.ex.Hub.solve(i.ss, q, vals, hasStr)
 }
@@ -304,18 +314,18 @@ func (i *interpreter) branch(c value) bool {
 	if p.pos < len(p.prefix) {
 		d = p.prefix[p.pos]
 		p.pos++
+	} else if cs.heavy {
+		// no feasibility query for heavy conditions: both sides are explored
+		p.pos++
+		d = 1
+		i.ex.enqueue(append(append([]int(nil), p.taken...), 0))
 	} else {
 		p.pos++
-		tq := i.solve([]string{cs.e}, nil)
+		tq := i.solveFeas([]string{cs.e})
 		if tq.res == "unsat" {
 			d = 0
-			if i.ex.Tier == "paranoid" {
-				if fq := i.solve([]string{"(not " + cs.e + ")"}, nil); fq.res == "unsat" {
-					panic(pathEnd{reason: "infeasible"})
-				}
-			}
 		} else {
-			fq := i.solve([]string{"(not " + cs.e + ")"}, nil)
+			fq := i.solveFeas([]string{"(not " + cs.e + ")"})
 			if fq.res == "unsat" {
 				d = 1
 			} else {
@@ -326,6 +336,14 @@ func (i *interpreter) branch(c value) bool {
 		}
 	}
 	p.taken = append(p.taken, d)
+	if cs.heavy {
+		if d == 1 {
+			p.lazy = append(p.lazy, cs.e)
+			return true
+		}
+		p.lazy = append(p.lazy, "(not "+cs.e+")")
+		return false
+	}
 	if d == 1 {
 		p.assume(cs)
 		return true
